@@ -154,8 +154,13 @@ CHECKS.update({
             "No compactor runs in this scenario (exact equality of all versions would otherwise depend on retention). Incremental rounds stream versions above the existing ones.", "3/C26"),
 })
 
+CHECKS.update({
+    "C23": ("exploration", "deterministic simulation of encrypted histories (data-key rotation driven by simulated clock jumps) + plaintext scan of every file, (key id, IV) uniqueness from hook reports, wrong-key and master-key-rotation re-opens",
+            "Re-open-scenario histories with 16/24/32-byte master keys and data-key rotation intervals that the simulated clock exceeds; reads equal the MVCC model throughout (= the unencrypted results); every (data key id, IV) pair reported by the table builder and the log writer is new; after Close no user key >=8 bytes and no value marker occurs in any file; another key is refused with ErrEncryptionKeyMismatch and leaves all file hashes unchanged; after a master-key rotation done the way `badger rotate` does it the old key is refused and the data reads back unchanged.",
+            "Plaintext needles are keys of >=8 bytes and the unique id marker of each value (shorter byte strings would match by chance). IV uniqueness is observed at the encryption call sites (tag-guarded event), not re-parsed from the files. The rotate command's own flag parsing is not run; its two exported calls are.", "3/C23"),
+})
+
 PENDING = {
-    "C23": "not claimed: the encryption-at-rest scenario (plaintext scan of every file, (keyID, IV) uniqueness, wrong-key refusal) is not implemented in this revision; encryption is only a swarm option of the other scenarios",
 }
 
 def main():
